@@ -454,6 +454,13 @@ class C10(Property):
         'independence of the TYPE of a magnitude (Python int, numpy int64 / int32 / float32 scalars and arrays, Fraction / object dtype): the '
         'model has one exact number type; decided by correspondence + oracle (typed configurations vs the same physics in floats)',
         'from_string reading of parenthesised (inactive) species: C12; here only its result is compared with what was written',
+        'get_odesys without a unit registry (plain numbers taken as they are, p_units None): correspondence with plainRhs (op plain_rhs) + oracle, no theorem needed beyond plainRhs itself',
+        'temperature supplied through substitutions (passive value, RampedTemp expression), through `constants`, ArrheniusParamWithUnits.as_RateExpr, '
+        'free unique keys of an Arrhenius expression (p_units from Arrhenius.args_dimensionality: model op ode_units), partial unique keys, '
+        'MassAction(Symbol) named constants: oracle (ode_expr variants / ode_named symbol_args), no theorem',
+        'Reaction(checks=..., dont_check=...) (model reactionCtor, correspondence reaction_ctor) and Reaction.copy (oracle): no Props theorem '
+        '(reactionCtor only selects whether reactionCheck runs)',
+        'get_odesys(cstr=True, unit_registry=...): refused with KeyError (finding 8), model and real agree on the refusal',
         'Equilibrium.as_reactions with param=(kf, kb) tuples: oracle only (the model covers kf-given / kb-given / none / both)',
     )
     anchors = [('chempy/chemistry.py', 'Equilibrium.as_reactions'), ('chempy/chemistry.py', 'Reaction.copy'), ('chempy/chemistry.py', 'Reaction.__init__'),
@@ -463,8 +470,9 @@ class C10(Property):
                ('chempy/kinetics/rates.py', 'MassAction.active_conc_prod'), ('chempy/kinetics/rates.py', 'MassAction.__call__'),
                ('chempy/kinetics/ode.py', 'get_odesys'), ('chempy/kinetics/ode.py', '_get_derived_unit'),
                ('chempy/kinetics/ode.py', '_mk_dedim'), ('chempy/kinetics/ode.py', '_validate'),
-               ('chempy/units.py', 'to_unitless'), ('chempy/units.py', 'get_derived_unit'), ('chempy/units.py', 'unit_of'),
-               ('chempy/units.py', 'default_unit_in_registry'), ('chempy/units.py', 'rescale'), ('chempy/units.py', 'is_quantity')]
+               # units.py: to_unitless / unit_of / rescale / get_derived_unit / default_unit_in_registry are C09's anchors (C09 models and
+               # covers them; C10 imports that model) — only is_quantity is mirrored here
+               ('chempy/units.py', 'is_quantity')]
 
     # ------------------------------------------------------------------------------------------------ generation
     def generate(self, rng, n, tier):
@@ -495,6 +503,13 @@ class C10(Property):
             cases.append(self._expr_case(rng))
         for _ in range(share(0.06)):
             cases.append(self._history_case(rng, tier))
+        for _ in range(share(0.04)):
+            cases.append(self._no_registry_case(rng, tier))
+        for _ in range(max(2, share(0.01))):
+            cases.append({'kind': 'cstr_units', 'reg': _rand_reg(rng), 'order': rng.randint(1, 2),
+                          'k': {'mag': _rand_mag(rng), 'u': None}})
+        for _ in range(share(0.04)):
+            cases.append(self._ctor_flags_case(rng))
         for _ in range(share(0.05)):
             c = self._ode_case(rng, tier, named=True)
             c['kind'] = 'ode_named_wrong'
@@ -510,9 +525,10 @@ class C10(Property):
             c['kind'] = 'dedim_tcp'
             cases.append(c)
         for _ in range(min(max(3, int(n * 0.02)), 45)):
-            c = self._ode_case(rng, 'quick', named=True)
+            cat = rng.random() < 0.3
+            c = self._ode_case(rng, 'quick', named=True, catalyst=cat)
             while len(c['rxns']) > 3:
-                c = self._ode_case(rng, 'quick', named=True)
+                c = self._ode_case(rng, 'quick', named=True, catalyst=cat)
             c['kind'] = 'validate'
             if rng.random() < 0.5:
                 i = rng.randrange(len(c['rxns']))
@@ -547,6 +563,9 @@ class C10(Property):
         else:
             param = {'mag': _rand_mag(rng), 'u': _rate_unit(rng, order, wrong)}
         c = {'kind': 'accept', 'reac': reac, 'prod': {'D': 1}, 'param': _typify(rng, param, free=True), 'wrong': wrong}
+        if 'u' in param and not c['param'].get('mt') and rng.random() < 0.08:
+            c['wrap_expr'] = True          # pq.Quantity(<Arrhenius expression>, unit): check_consistent_units evaluates it at 1 K
+            return c
         return self._with_inactive(rng, c)
 
     def _with_inactive(self, rng, c):
@@ -641,8 +660,12 @@ class C10(Property):
                     out.append(c2)
         return out
 
-    def _ode_case(self, rng, tier, named, spectator=False, typed=None):
+    def _ode_case(self, rng, tier, named, spectator=False, typed=None, catalyst=False):
         subst, rxns = _rand_system(rng, tier, spectator)
+        if catalyst:        # a substance on both sides of one reaction and nowhere else: its rate is identically zero
+            rxns[0]['reac']['Q'] = rxns[0]['reac'].get('Q', 0) + 1
+            rxns[0]['prod']['Q'] = rxns[0]['prod'].get('Q', 0) + 1
+            subst = subst + ['Q']
         typed = (rng.random() < 0.3) if typed is None else typed
         if typed:       # configuration A in integer / numpy-scalar / Fraction magnitudes; B re-expresses the same physics in floats
             conf_a, phys_k, phys_c = _typed_config(rng, subst, rxns)
@@ -651,6 +674,7 @@ class C10(Property):
             phys_c = {s: _nice(rng) for s in subst}
             conf_a = _config(rng, subst, rxns, phys_k, phys_c)
         return {'kind': 'ode_named' if named else 'ode', 'spectator': spectator, 'typed': typed, 'subst': subst, 'rxns': rxns,
+                'symbol_args': named and rng.random() < 0.25,
                 'phys_k': [str(k) for k in phys_k], 'phys_c': {s: str(v) for s, v in phys_c.items()},
                 'A': conf_a, 'B': _config(rng, subst, rxns, phys_k, phys_c)}
 
@@ -713,9 +737,37 @@ class C10(Property):
             systems.append({'subst': subst, 'rxns': rxns, 'keys': keys, 'include': rng.random() < 0.7, 'conf': conf})
         return {'kind': 'history', 'systems': systems}
 
+    def _no_registry_case(self, rng, tier):
+        """get_odesys WITHOUT a unit registry on plain numbers: the right-hand side is the plain computation on those numbers
+        (`plainRhs`, the hand computation in one fixed unit set), p_units is None"""
+        subst, rxns = _rand_system(rng, tier, spectator=rng.random() < 0.1)
+        return {'kind': 'no_registry', 'subst': subst, 'rxns': rxns, 'named': rng.random() < 0.4,
+                'ks': [str(_nice(rng)) for _ in rxns], 'c0': {x: str(_nice(rng)) for x in subst}, 't': _rand_mag(rng)}
+
+    def _ctor_flags_case(self, rng):
+        """Reaction(..., checks=..., dont_check=...): which checks run, and the refusal when both are given"""
+        order = rng.randint(0, 3)
+        c = self._accept_case(rng, order, rng.choice([None] + WRONGS))
+        c.pop('inact_reac', None); c.pop('inact_prod', None); c.pop('via', None)
+        r = rng.random()
+        if r < 0.3:
+            flags = {'checks': rng.choice([['consistent_units'], [], ['any_effect'], ['consistent_units', 'all_positive']]), 'dont_check': None}
+        elif r < 0.7:
+            flags = {'checks': None, 'dont_check': rng.choice([['consistent_units'], ['any_effect'], ['consistent_units', 'all_integral'], []])}
+        else:
+            flags = {'checks': rng.choice([['consistent_units'], []]), 'dont_check': rng.choice([['consistent_units'], ['any_effect']])}
+        c['flags'] = flags
+        return c
+
+    EXPR_VARIANTS = {'Arrhenius': ['plain', 'as_rateexpr', 'fk_named', 'partial_uk', 'subst', 'constants', 'ramp', 'ramp_free', 'bad_subst', 'noreg_constants'],
+                     'Eyring': ['plain', 'subst', 'constants']}
+
     def _expr_case(self, rng):
-        """a reaction whose rate constant is MassAction(Arrhenius([A, Ea/R])) or MassAction(Eyring([c0, dH/R])): oracle only"""
-        cls = rng.choice(['Arrhenius', 'Eyring'])
+        """a reaction whose rate constant is MassAction(Arrhenius([A, Ea/R])) or MassAction(Eyring([c0, dH/R])), supplied in the
+        ways get_odesys accepts: values, an ArrheniusParamWithUnits (as_RateExpr), free unique keys (include_params=False),
+        unique keys for some arguments only, temperature as parameter / passive substitution / attribute of `constants` /
+        RampedTemp substitution; a substitution for a key that occurs nowhere must be refused"""
+        cls = rng.choice(['Arrhenius', 'Arrhenius', 'Eyring'])
         order = rng.randint(1, 3)
         reac = {}
         for _ in range(order):
@@ -734,8 +786,15 @@ class C10(Property):
                 c0[x] = {'mag': str(phys_c[x] / _book_u(cul)[0]), 'u': cul}
             confs.append({'reg': _rand_reg(rng), 'A': {'mag': str(A_si / _book_u(ul)[0]), 'u': ul}, 'c0': c0,
                           't': {'mag': _rand_mag(rng), 'u': [[rng.choice(TIME_UNITS), 1]]}})
-        return {'kind': 'ode_expr', 'cls': cls, 'reac': reac, 'prod': {'C': 1}, 'subst': subst, 'A_si': str(A_si),
-                'Ea': str(Ea), 'T': str(T), 'confs': confs}
+        self._expr_n = getattr(self, '_expr_n', 0) + 1
+        vs = self.EXPR_VARIANTS[cls]
+        variant = vs[self._expr_n % len(vs)]
+        if variant in ('ramp', 'ramp_free'):       # keep dT/dt * t small: T0 = T - dT/dt * t must not cancel digits of T
+            for conf in confs:
+                conf['t'] = {'mag': str(rng.randint(1, 20)), 'u': [[rng.choice(['s', 'ms']), 1]]}
+        return {'kind': 'ode_expr', 'cls': cls, 'variant': variant, 'reac': reac, 'prod': {'C': 1},
+                'subst': subst, 'A_si': str(A_si), 'Ea': str(Ea), 'T': str(T), 'confs': confs,
+                'dTdt': {'mag': str(rng.randint(1, 3)), 'u': [['K', 1], [rng.choice(['s', 'minute', 'hour']), -1]]}}
 
     def _roundtrip_case(self, rng, tier):
         c = self._ode_case(rng, tier, named=True)
@@ -767,6 +826,11 @@ class C10(Property):
 
     def _model_case(self, c):
         k = c['kind']
+        if k == 'accept' and c.get('flags'):
+            fl = c['flags']
+            sel = ('consistent_units' in fl['checks']) if fl['checks'] is not None else ('consistent_units' not in (fl['dont_check'] or []))
+            return {'op': 'reaction_ctor', 'param': _mj(c['param']), 'order': sum(c['reac'].values()),
+                    'checks_given': fl['checks'] is not None, 'dont_check_given': fl['dont_check'] is not None, 'unit_selected': sel, 'kind': k}
         if k in ('accept', 'equilibrium') and ('inact_reac' in c or 'inact_prod' in c):
             vals = lambda key: [n for _, n in sorted(c.get(key, {}).items())]
             return {'op': 'reaction_check_s' if k == 'accept' else 'equilibrium_check_s', 'param': _mj(c['param']),
@@ -801,6 +865,15 @@ class C10(Property):
             return {'op': 'derived_fallback', 'reg': _mj_reg(c['reg']), 'key': c['key'], 'kind': k}
         if k == 'dedim_args':
             return {'op': 'dedim_args', 'reg': _mj_reg(c['reg']), 'args': [_mj(q) for q in c['args']], 'kind': k}
+        if k == 'no_registry':
+            return {'op': 'plain_rhs', 'ks': [rat_json(F(v)) for v in c['ks']], 'rxns': self._rxn_json(c),
+                    'y': [rat_json(F(c['c0'][x])) for x in c['subst']], 'ns': len(c['subst']), 'kind': k}
+        if k == 'cstr_units':
+            return {'op': 'ode_units', 'reg': _mj_reg(c['reg']), 'pk': ['feedratio', 'fc_A', 'fc_B'], 'include': True, 'unique': [], 'kind': k}
+        if k == 'ode_expr' and c['variant'] == 'fk_named':
+            order = sum(c['reac'].values())
+            return {'op': 'ode_units', 'reg': _mj_reg(c['confs'][0]['reg']), 'pk': ['temperature'], 'include': False,
+                    'unique': [{'cls': 'Arrhenius', 'nargs': 2, 'idx': i, 'order': order} for i in (0, 1)], 'kind': k}
         if k == 'ode_units_arrhenius':
             return {'op': 'ode_units', 'reg': _mj_reg(c['reg']), 'pk': ['temperature'], 'include': True, 'unique': [], 'kind': k}
         if k == 'history':
@@ -822,6 +895,11 @@ class C10(Property):
 
     def classify(self, c):
         k = c.get('kind', '?')
+        if k == 'accept' and c.get('flags'):
+            return 'accept with checks=%s dont_check=%s' % ('given' if c['flags']['checks'] is not None else 'None',
+                                                           'given' if c['flags']['dont_check'] is not None else 'None')
+        if k == 'accept' and c.get('wrap_expr'):
+            return 'accept Quantity wrapping an Expr'
         if k == 'accept':
             p = c['param']
             tag = 'plain' if 'num' in p else 'unitobj' if 'unitobj' in p else ('right' if not c.get('wrong') else 'wrong-' + c['wrong'])
@@ -847,7 +925,7 @@ class C10(Property):
         if k == 'as_reactions':
             return 'as_reactions mode=%s units=%s K=%s' % (c['mode'], c['units'], 'plain' if 'num' in c['K'] else 'quantity')
         if k == 'ode_expr':
-            return 'ode_expr %s order=%d' % (c['cls'], sum(c['reac'].values()))
+            return 'ode_expr %s %s' % (c['cls'], c['variant'])
         if k == 'history':
             return 'history of %d systems sharing unique-key names (%s)' % (
                 len(c['systems']), '/'.join('incl' if sy['include'] else 'named' for sy in c['systems']))
@@ -871,7 +949,17 @@ class C10(Property):
             if got != want:
                 raise AssertionError('from_string(%r) read %r, written %r' % (txt, got, want))
             return r
-        return cls(dict(c['reac']), dict(c['prod']), _real(c['param']), c.get('inact_reac') or None, c.get('inact_prod') or None, **kw)
+        param = _real(c['param'])
+        if c.get('wrap_expr'):
+            import numpy as np
+            from chempy.kinetics.rates import Arrhenius
+            cu = _cu()
+            param = cu.pq.Quantity(np.array(Arrhenius([float(F(c['param']['mag'])), 5000.0]), dtype=object), param.units)
+        if c.get('flags') and 'checks' not in kw:
+            for key in ('checks', 'dont_check'):
+                if c['flags'][key] is not None:
+                    kw[key] = tuple(c['flags'][key]) if key == 'checks' else set(c['flags'][key])
+        return cls(dict(c['reac']), dict(c['prod']), param, c.get('inact_reac') or None, c.get('inact_prod') or None, **kw)
 
     def _tags(self, c):
         t = ''
@@ -886,7 +974,13 @@ class C10(Property):
         from chempy import Reaction, ReactionSystem
         rx = []
         for i, (r, k) in enumerate(zip(c['rxns'], conf['ks'])):
-            rx.append(Reaction(dict(r['reac']), dict(r['prod']), ('k%d' % i) if named else _real(k)))
+            if named and c.get('symbol_args'):
+                from chempy.kinetics.rates import MassAction
+                from chempy.util._expr import Symbol
+                par = MassAction(Symbol(unique_keys=('k%d' % i,)))
+            else:
+                par = ('k%d' % i) if named else _real(k)
+            rx.append(Reaction(dict(r['reac']), dict(r['prod']), par))
         return ReactionSystem(rx, ' '.join(c['subst']))
 
     def _run_ode(self, c, conf, named):
@@ -947,10 +1041,19 @@ class C10(Property):
                 if k == 'derived_fallback':
                     from chempy.kinetics.ode import _get_derived_unit
                     return json.dumps(list(_read(_get_derived_unit(_real_reg(c['reg']), c['key']))))
+                if k == 'no_registry':
+                    return json.dumps(self._run_no_registry(c)[0])
+                if k == 'cstr_units':
+                    _, extra = self._run_cstr_units(c)
+                    return json.dumps({'keys': list(extra['param_keys']), 'p_units': [list(_read(x)) for x in extra['p_units']]})
+                if k == 'ode_expr':
+                    odesys, extra, _, _ = self._build_expr(c, c['confs'][0])
+                    return json.dumps({'keys': list(odesys.param_names), 'p_units': [list(_read(x)) for x in extra['p_units']]})
                 if k == 'dedim_args':
                     from chempy.kinetics.rates import MassAction, Arrhenius
                     from chempy.util._expr import Expr
-                    cls = type('E%d' % len(c['args']), (Expr,), {'nargs': len(c['args'])})
+                    # nargs given, or left None (then Expr.all_args takes len(self.args))
+                    cls = type('E%d' % len(c['args']), (Expr,), {'nargs': len(c['args'])} if len(c['args']) % 2 else {})
                     units, inst = cls([_real(q) for q in c['args']]).dedimensionalisation(_real_reg(c['reg']))
                     return json.dumps([[list(_read(u)), float(v)] for u, v in zip(units, inst.args)])
                 if k == 'ode_units_arrhenius':
@@ -965,6 +1068,71 @@ class C10(Property):
             except Exception as e:
                 return exc_name(e)
         return '!unknown-kind'
+
+    def _run_no_registry(self, c):
+        from chempy import Reaction, ReactionSystem
+        from chempy.kinetics.ode import get_odesys
+        rx = [Reaction(dict(r['reac']), dict(r['prod']), ('k%d' % i) if c['named'] else float(F(k)))
+              for i, (r, k) in enumerate(zip(c['rxns'], c['ks']))]
+        odesys, extra = get_odesys(ReactionSystem(rx, ' '.join(c['subst'])), include_params=not c['named'])
+        p = {('k%d' % i): float(F(k)) for i, k in enumerate(c['ks'])} if c['named'] else ()
+        x, y, pp = odesys.to_arrays(float(F(c['t'])), {s_: float(F(c['c0'][s_])) for s_ in c['subst']}, p)
+        f = odesys.f_cb(x[-1], y, pp)
+        return [float(v) for v in f.ravel()[:len(c['subst'])]], extra
+
+    def _run_cstr_units(self, c):
+        from chempy import Reaction, ReactionSystem
+        from chempy.kinetics.ode import get_odesys
+        k = {'mag': c['k']['mag'], 'u': [['molar', 1 - c['order']], ['s', -1]] if c['order'] != 1 else [['s', -1]]}
+        rxn = Reaction({'A': c['order']}, {'B': 1}, _real(k))
+        return get_odesys(ReactionSystem([rxn], 'A B'), unit_registry=_real_reg(c['reg']), cstr=True)
+
+    def _build_expr(self, c, conf):
+        """the unit-aware system of an ode_expr case in one configuration -> (odesys, extra, (t, c0, p), T at the time asked for)"""
+        import types
+        from chempy import Reaction, ReactionSystem
+        from chempy.kinetics import rates
+        from chempy.kinetics.ode import get_odesys
+        cu = _cu()
+        u = cu.default_units
+        Ea, T = float(F(c['Ea'])), float(F(c['T']))
+        A_q, Ea_q, T_q = _real(conf['A']), Ea * u.K, T * u.K
+        v = c['variant']
+        cls = getattr(rates, c['cls'])
+        kw, p = {}, {'temperature': T_q}
+        if v == 'as_rateexpr':
+            from chempy.kinetics.arrhenius import ArrheniusParamWithUnits
+            param = ArrheniusParamWithUnits(A_q, Ea_q * cu.default_constants.molar_gas_constant)
+        elif v == 'fk_named':
+            param = rates.MassAction(cls.fk('A1', 'Ea1'))
+            kw['include_params'] = False
+            p = {'temperature': T_q, 'A1': A_q, 'Ea1': Ea_q}
+        elif v == 'partial_uk':
+            param = rates.MassAction(cls([A_q, Ea_q], unique_keys=('A1',)))
+        else:
+            param = rates.MassAction(cls([A_q, Ea_q]))
+        t = _real(conf['t'])
+        if v == 'subst':
+            kw['substitutions'], p = {'temperature': T_q}, ()
+        elif v == 'constants':
+            kw['constants'], p = types.SimpleNamespace(temperature=T_q), ()
+        elif v == 'noreg_constants':
+            # no registry: numbers are taken as they are; `constants` attributes lose their units (magnitude)
+            A_si, cs = float(F(c['A_si'])), {x: float(_si(conf['c0'][x])) for x in c['subst']}
+            rxn = Reaction(dict(c['reac']), dict(c['prod']), rates.MassAction(cls([A_si, Ea])))
+            odesys, extra = get_odesys(ReactionSystem([rxn], ' '.join(c['subst'])), constants=types.SimpleNamespace(temperature=T_q))
+            return odesys, extra, [float(_si(conf['t'])), cs, ()], T
+        elif v in ('ramp', 'ramp_free'):
+            if v == 'ramp_free':
+                kw['include_params'] = False       # the substitution expression goes through _reg_unique as well
+            dTdt = _real(c['dTdt'])
+            T0 = T - float(_si(c['dTdt'])) * float(_si(conf['t']))
+            kw['substitutions'], p = {'temperature': rates.RampedTemp([T0 * u.K, dTdt])}, ()
+        elif v == 'bad_subst':
+            kw['substitutions'] = {'bogus_key': 3.0}
+        rxn = Reaction(dict(c['reac']), dict(c['prod']), param)
+        odesys, extra = get_odesys(ReactionSystem([rxn], ' '.join(c['subst'])), unit_registry=_real_reg(conf['reg']), **kw)
+        return odesys, extra, [t, {x: _real(conf['c0'][x]) for x in c['subst']}, p], T
 
     def _run_history(self, c):
         """every system of the history, in order, in this process -> list of unitless right-hand sides"""
@@ -1067,6 +1235,19 @@ class C10(Property):
             a, b = json.loads(io), json.loads(mo)
             if k == 'args_dims':
                 return a == b
+            if k == 'no_registry':
+                sc = self._plain_scales(c)
+                return len(a) == len(b) and all(_close(x, F(yv), s_) for x, yv, s_ in zip(a, b, sc))
+            if k in ('ode_expr', 'cstr_units'):
+                if k == 'ode_expr' and a['keys'] != ['temperature', 'A1', 'Ea1']:
+                    return False
+                if len(a['p_units']) != len(b['p_units']):
+                    return False
+                for (si, d), o in zip(a['p_units'], b['p_units']):
+                    osi, od = _parse_py(o)
+                    if tuple(d) != od or not _close(si, osi):
+                        return False
+                return True
             if k == 'history':
                 sy = c['systems'][-1]
                 sc = self._scales(sy, sy['conf'])
@@ -1130,6 +1311,19 @@ class C10(Property):
             out.append(float(tot / unit))
         return out
 
+    def _plain_rates(self, c):
+        out = []
+        for r, k in zip(c['rxns'], c['ks']):
+            v = F(k)
+            for x, n in r['reac'].items():
+                v *= F(c['c0'][x]) ** n
+            out.append(v)
+        return out
+
+    def _plain_scales(self, c):
+        rates = self._plain_rates(c)
+        return [float(sum(abs(r['prod'].get(x, 0) - r['reac'].get(x, 0)) * abs(rt) for r, rt in zip(c['rxns'], rates))) for x in c['subst']]
+
     def _hand_rates(self, c, conf):
         """rate of every reaction in SI (mol m-3 s-1), from the SI values of constant and concentrations"""
         out = []
@@ -1168,6 +1362,10 @@ class C10(Property):
             return 'named rate constant %d has dimension %s (order %d needs %s) but to_arrays accepted it: f=%r' % (
                 c['bad'], _book(c['A']['ks'][c['bad']])[2], sum(c['rxns'][c['bad']]['reac'].values()),
                 rate_dims(sum(c['rxns'][c['bad']]['reac'].values())), f)
+        if k == 'no_registry':
+            return self._oracle_no_registry(c)
+        if k == 'cstr_units':
+            return self._oracle_cstr_units(c)
         if k == 'history':
             return self._oracle_history(c)
         if k == 'as_reactions':
@@ -1199,13 +1397,28 @@ class C10(Property):
         return None
 
     def _oracle_accept(self, c):
-        from chempy import Reaction
         p = c['param']
         order = sum(c['reac'].values())
         if 'num' in p or 'unitobj' in p:
             expect = True
         else:
             expect = _book(p)[2] == rate_dims(order)
+        fl = c.get('flags')
+        if fl:
+            both = fl['checks'] is not None and fl['dont_check'] is not None
+            sel = ('consistent_units' in fl['checks']) if fl['checks'] is not None else ('consistent_units' not in (fl['dont_check'] or []))
+            want = False if both else (expect or not sel)
+            try:
+                self._mk(c)
+                got = True
+            except ValueError:
+                got = False
+            except Exception as e:
+                return 'Reaction(checks=%r, dont_check=%r) raised %s' % (fl['checks'], fl['dont_check'], exc_name(e))
+            if got != want:
+                return 'Reaction(..., %s, checks=%r, dont_check=%r) for order %d: %s, expected %s' % (
+                    p, fl['checks'], fl['dont_check'], order, 'accepted' if got else 'refused', 'acceptance' if want else 'refusal')
+            return None
         try:
             self._mk(c)
             got = True
@@ -1230,6 +1443,28 @@ class C10(Property):
         if got != expect:
             return 'rate constant %s for order %d: dimension %s, required %s, %s' % (
                 p, order, _book(p)[2], rate_dims(order), 'accepted' if got else 'refused')
+        # Reaction.copy: same stoichiometry and constant, same verdict; a copy given a new constant and asked to check it, checks it
+        if 'unitobj' in p:
+            return None          # copy.copy(pq.s) yields a broken UnitTime object (no _definition) inside `quantities` (third party)
+        try:
+            r2 = r.copy()
+            if (dict(r2.reac), dict(r2.prod), dict(r2.inact_reac), dict(r2.inact_prod)) != (
+                    dict(r.reac), dict(r.prod), dict(r.inact_reac), dict(r.inact_prod)):
+                return 'Reaction.copy() changed the stoichiometry'
+            if not c.get('wrap_expr') and _snap(r2.param) != _snap(r.param):
+                return 'Reaction.copy() changed the rate constant: %r -> %r' % (r.param, r2.param)
+            if bool(r2.check_consistent_units()) != got2:
+                return 'Reaction.copy() changed the verdict of check_consistent_units()'
+            try:
+                r.copy(checks=('consistent_units',))
+                got4 = True
+            except ValueError:
+                got4 = False
+            if got4 != got:
+                return 'Reaction.copy(checks=("consistent_units",)) %s a constant the constructor %s' % (
+                    'accepts' if got4 else 'refuses', 'accepts' if got else 'refuses')
+        except Exception as e:
+            return 'Reaction.copy raised %s: %s' % (exc_name(e), str(e)[:120])
         return None
 
     def _oracle_equilibrium(self, c):
@@ -1454,14 +1689,13 @@ class C10(Property):
         return None
 
     def _oracle_expr(self, c):
-        """Arrhenius / Eyring rate constants (no theorem: clauses_without_theorem): two registries / unit choices vs the hand formula"""
-        from chempy import Reaction, ReactionSystem
-        from chempy.kinetics import rates
-        from chempy.kinetics.ode import get_odesys
+        """Arrhenius / Eyring rate constants (no theorem: clauses_without_theorem): two registries / unit choices vs the hand formula,
+        for every way of supplying the expression and the temperature"""
         u = _cu().default_units
         order = sum(c['reac'].values())
         A, Ea, T = float(F(c['A_si'])), float(F(c['Ea'])), float(F(c['T']))
         k = A * math.exp(-Ea / T) if c['cls'] == 'Arrhenius' else A * T * math.exp(-Ea / T) * 1000.0 ** (1 - order)
+        v = c['variant']
         for conf in c['confs']:
             cs = {x: float(_si(conf['c0'][x])) for x in c['subst']}
             rate = k
@@ -1469,26 +1703,114 @@ class C10(Property):
                 rate *= cs[x] ** n
             want = [(c['prod'].get(x, 0) - c['reac'].get(x, 0)) * rate for x in c['subst']]
             try:
-                expr = getattr(rates, c['cls'])([_real(conf['A']), Ea * u.K])
-                rxn = Reaction(dict(c['reac']), dict(c['prod']), rates.MassAction(expr))
-                odesys, extra = get_odesys(ReactionSystem([rxn], ' '.join(c['subst'])), unit_registry=_real_reg(conf['reg']))
-                ins = [_real(conf['t']), {x: _real(conf['c0'][x]) for x in c['subst']}, {'temperature': T * u.K}]
+                odesys, extra, ins, _ = self._build_expr(c, conf)
+                if v == 'bad_subst':
+                    return 'a substitution for a key that occurs in no rate expression was accepted'
                 before = _snap(ins)
                 x_, y_, p_ = odesys.to_arrays(*ins)
-                f = [float(v) for v in odesys.f_cb(x_[-1], y_, p_).ravel()[:len(c['subst'])]]
+                f = [float(w) for w in odesys.f_cb(x_[-1], y_, p_).ravel()[:len(c['subst'])]]
                 _unchanged('get_odesys(...).to_arrays / f_cb', before, ins)
             except Exception as e:
-                return '%s system raised %s: %s' % (c['cls'], exc_name(e), str(e)[:160])
-            if list(extra['param_keys']) != ['temperature']:
-                return '%s system: param_keys = %r' % (c['cls'], extra['param_keys'])
-            tsi, tdim = _read(extra['p_units'][0])
-            if tdim != _d(TH=1) or not _close(tsi, _reg_si(conf['reg'], _d(TH=1))):
-                return '%s system: reported temperature unit %r' % (c['cls'], extra['p_units'][0])
+                if v == 'bad_subst' and isinstance(e, ValueError) and not isinstance(e, InputMutated):
+                    continue
+                return '%s system (%s) raised %s: %s' % (c['cls'], v, exc_name(e), str(e)[:160])
+            want_keys = {'fk_named': ['temperature', 'A1', 'Ea1'], 'subst': [], 'constants': [], 'ramp': [], 'ramp_free': [],
+                         'noreg_constants': []}.get(v, ['temperature'])
+            if v == 'noreg_constants':
+                if extra['p_units'] is not None:
+                    return 'p_units = %r without a unit registry' % (extra['p_units'],)
+                for x, w_, w in zip(c['subst'], f, want):
+                    if not _close(w_, w, abs(rate), rtol=1e-9):
+                        return 'Arrhenius without registry (SI numbers, temperature from `constants`): d[%s]/dt = %r, by hand %r' % (x, w_, w)
+                continue
+            if list(odesys.param_names) != want_keys:
+                return '%s system (%s): parameters %r, expected %r' % (c['cls'], v, list(odesys.param_names), want_keys)
+            want_dims = {'temperature': _d(TH=1), 'A1': rate_dims(order), 'Ea1': _d(TH=1)}
+            if len(extra['p_units']) != len(want_keys):
+                return '%s system (%s): p_units %r for parameters %r' % (c['cls'], v, extra['p_units'], want_keys)
+            for key, pu in zip(want_keys, extra['p_units']):
+                usi, ud = _read(pu)
+                if ud != want_dims[key] or not _close(usi, _reg_si(conf['reg'], want_dims[key])):
+                    return '%s system (%s): reported unit of %s = %r, registry %s' % (c['cls'], v, key, pu, conf['reg'])
             unit = float(_reg_si(conf['reg'], CONC) / _reg_si(conf['reg'], TIME))
-            for x, v, w in zip(c['subst'], f, want):
-                if not _close(v * unit, w, abs(rate), rtol=1e-9):
-                    return ('%s rate constant, order %d, registry %s: d[%s]/dt = %r mol m-3 s-1, by hand %r (A = %s)' % (
-                        c['cls'], order, conf['reg'], x, v * unit, w, conf['A']))
+            for x, w_, w in zip(c['subst'], f, want):
+                if not _close(w_ * unit, w, abs(rate), rtol=1e-9):
+                    return ('%s rate constant (%s), order %d, registry %s: d[%s]/dt = %r mol m-3 s-1, by hand %r (A = %s)' % (
+                        c['cls'], v, order, conf['reg'], x, w_ * unit, w, conf['A']))
+        return self._oracle_expr_args(c) if c['cls'] == 'Arrhenius' else None
+
+    def _oracle_expr_args(self, c):
+        """`Expr.arg`: an argument comes back as supplied (value and unit) whether it is addressed by index or by name, given
+        as a value or as the name of a variable; a unique key without value and without default raises KeyError"""
+        from chempy.kinetics.rates import Arrhenius
+        u = _cu().default_units
+        A_q, Ea_q = _real(c['confs'][0]['A']), float(F(c['Ea'])) * u.K
+        try:
+            e1 = Arrhenius([A_q, Ea_q])
+            if _snap(e1.arg({}, 'Ea_over_R')) != _snap(Ea_q) or _snap(e1.arg({}, 'A')) != _snap(A_q):
+                return 'Expr.arg by argument name does not return the argument'
+            e3 = Arrhenius(['A_var', Ea_q])
+            if _snap(e3.arg({'A_var': A_q}, 0)) != _snap(A_q):
+                return 'Expr.arg: an argument given as the name of a variable is not looked up'
+            e4 = Arrhenius([A_q, Ea_q], unique_keys=('A1',))
+            if _snap(e4.arg({}, 1)) != _snap(Ea_q) or _snap(e4.arg({'A1': 2 * A_q}, 0)) != _snap(2 * A_q) or _snap(e4.arg({}, 0)) != _snap(A_q):
+                return 'Expr.arg: unique-key override / positional argument beyond the unique keys wrong'
+        except Exception as e:
+            return 'Expr.arg raised %s: %s' % (exc_name(e), str(e)[:120])
+        try:
+            from chempy.kinetics.rates import Eyring
+            d_si, d_dim = _read(Eyring.fk('c0_key', 'dH_key').arg({}, 2))
+            if d_dim != CONC or not _close(d_si, 1000):
+                return 'Eyring: default standard concentration = %r %s, expected 1 molar' % (d_si, d_dim)
+        except Exception as e:
+            return 'Expr.arg for a defaulted argument raised %s' % exc_name(e)
+        try:
+            Arrhenius.fk('A1', 'Ea1').arg({'Ea1': Ea_q}, 0)
+        except KeyError:
+            return None
+        except Exception as e:
+            return 'Expr.arg with a missing unique key raised %s instead of KeyError' % exc_name(e)
+        return 'Expr.arg with a missing unique key returned a value'
+
+    def _oracle_no_registry(self, c):
+        spect = any(all(x not in r['reac'] and x not in r['prod'] for r in c['rxns']) for x in c['subst'])
+        try:
+            f, extra = self._run_no_registry(c)
+        except ValueError as e:
+            return None if spect else 'get_odesys without registry raised ValueError: %s' % str(e)[:120]
+        except Exception as e:
+            return 'get_odesys without registry raised %s: %s' % (exc_name(e), str(e)[:120])
+        if extra['p_units'] is not None or extra['unit_registry'] is not None:
+            return 'p_units = %r without a unit registry' % (extra['p_units'],)
+        if c['named']:       # the key 'time' is reserved for the independent variable: a substance of that name is refused
+            from chempy import Reaction, ReactionSystem
+            from chempy.kinetics.ode import get_odesys
+            try:
+                get_odesys(ReactionSystem([Reaction({'time': 1}, {'B': 1}, 3.0)], 'time B'))
+                return "a substance named 'time' was accepted by get_odesys"
+            except ValueError:
+                pass
+        rates = self._plain_rates(c)
+        for x, v, sc in zip(c['subst'], f, self._plain_scales(c)):
+            w = sum((r['prod'].get(x, 0) - r['reac'].get(x, 0)) * rt for r, rt in zip(c['rxns'], rates))
+            if not _close(v, w, sc):
+                return 'without registry: d[%s]/dt = %r, plain computation on the same numbers %r' % (x, v, float(w))
+        return None
+
+    def _oracle_cstr_units(self, c):
+        """finding 8 (notes): cstr=True together with a unit registry raises KeyError('fc') — a refusal; should it ever be
+        accepted, the reported units must be 1/time for the feed ratio and a concentration for every feed concentration"""
+        try:
+            odesys, extra = self._run_cstr_units(c)
+        except KeyError:
+            return None
+        except Exception as e:
+            return 'get_odesys(cstr=True, unit_registry=...) raised %s: %s' % (exc_name(e), str(e)[:120])
+        for key, pu in zip(extra['param_keys'], extra['p_units']):
+            want = _dadd((0,) * 7, TIME, -1) if key == 'feedratio' else CONC
+            usi, ud = _read(pu)
+            if ud != want or not _close(usi, _reg_si(c['reg'], want)):
+                return 'CSTR parameter %s has reported unit %r' % (key, pu)
         return None
 
     def _oracle_roundtrip(self, c):
@@ -1537,7 +1859,7 @@ class C10(Property):
         a = c['A']
         rsys = self._build_rsys(c, a, True)
         try:
-            _, extra = _create_odesys(rsys, unit_registry=_real_reg(a['reg']))
+            odesys_, extra = _create_odesys(rsys, unit_registry=_real_reg(a['reg']))
         except Exception as e:
             return None          # construction problems of the symbolic system are third party
         cond = {s: _real(a['c0'][s]) for s in c['subst']}
@@ -1554,6 +1876,25 @@ class C10(Property):
                 'accepted' if got else 'refused', [_book(q)[2] for q in a['ks']], [sum(r['reac'].values()) for r in c['rxns']])
         if _snap(cond) != before:
             return 'validate modified the caller\'s conditions: before %r, after %r' % (before, _snap(cond))
+        # the private function called directly (its own default backend) gives the same verdict
+        from chempy.kinetics.ode import _validate
+        try:
+            res_d = _validate(cond, rsys=rsys, symbols=extra['symbols'], odesys=odesys_)
+            got_d = True
+        except ValueError:
+            got_d = False
+        if got_d != got:
+            return '_validate called directly %s what extra["validate"] %s' % ('accepts' if got_d else 'refuses', 'accepts' if got else 'refuses')
+        if got:
+            try:
+                extra['validate'](dict(cond, not_a_parameter=1.0), check_conditions_no_extra=True)
+                return 'validate(check_conditions_no_extra=True) accepted a condition that is neither substance nor parameter'
+            except KeyError:
+                pass
+            try:
+                extra['validate'](cond, check_conditions_no_extra=True)
+            except Exception as e:
+                return 'validate(check_conditions_no_extra=True) raised %s on the exact set of conditions' % exc_name(e)
         if got:
             hand = self._hand_rhs(c, a)
             unit_sc = self._scales(c, a)
